@@ -146,7 +146,7 @@ example : wfB (.cat .bol (.cat (.rep (.group (.rep (.chr 66) 0 none)) 2 none) (.
   rw [e] at this
   exact this
 
-/-- The repaired `match_gend` (fix F24) is needed: with a minimum count, an empty iteration may
+/-- The repaired `match_gend` (fix F25) is needed: with a minimum count, an empty iteration may
 have to be followed by a non-empty one.  `(a|^){2}` on "a" matches `[0,1)` — the unchanged C
 code reported `[0,0)`. -/
 theorem empty_iteration_then_nonempty :
